@@ -35,6 +35,19 @@ class UFDist(Distribution):
     def _sample(self, N=1, rng=None): raise NotImplementedError
 
 
+class UFDist2(Distribution):
+    """the same generic factor with its two mutable variables called u, w: used for a random variable that is itself named 'a' or 'b' (a variable cannot
+    carry the name of one of its OWN parameters - the library refuses that; it can carry the name of a parameter of ANOTHER factor)"""
+    def __init__(self, u=None, w=None, ctx=None, tag='f', **kwargs):
+        super().__init__(**kwargs)
+        self.u = u; self.w = w
+        self._ctx = ctx; self._tag = tag
+    def logpdf(self, x):
+        flat = lambda v: list(np.asarray(v, dtype=object).reshape(-1)) if not isinstance(v, (int, float)) else [v]
+        return self._ctx.uf(self._tag, *(flat(self.u) + flat(self.w) + flat(x)))
+    def _sample(self, N=1, rng=None): raise NotImplementedError
+
+
 # a graph: list of (name, dim, a_spec, b_spec); a spec is ('const',) | ('of', parent, ...) | ('of2', p1, p2)
 GRAPHS = {
     'chain2':      [('x', 2, ('const',), ('const',)), ('y', 2, ('of', 'x'), ('const',))],
@@ -45,6 +58,9 @@ GRAPHS = {
     'multilike_hyper4': [('s', 1, ('const',), ('const',)), ('x', 2, ('const',), ('const',)), ('y1', 2, ('of', 'x'), ('of', 's')), ('y2', 1, ('of', 'x'), ('const',))],
     # two conditional priors sharing one hyper-parameter d, both fixed: several likelihoods in d
     'sharedhyper3': [('d', 1, ('const',), ('const',)), ('x', 2, ('of', 'd'), ('const',)), ('z', 1, ('of', 'd'), ('const',))],
+    # a hyper-parameter variable NAMED LIKE the attribute it defines (documented use: Normal(0, std=lambda std: ...)): x.a is a callable of the variable 'a'
+    'samename2':   [('a', 1, ('const',), ('const',)), ('x', 2, ('of', 'a'), ('const',))],
+    'samename3':   [('b', 1, ('const',), ('const',)), ('x', 2, ('const',), ('of', 'b')), ('y', 2, ('of', 'x'), ('of', 'b'))],
     'independent3': [('u', 1, ('const',), ('const',)), ('w', 1, ('const',), ('const',)), ('x', 2, ('of', 'w'), ('const',))],
     'twoparent3':  [('d', 1, ('const',), ('const',)), ('x', 2, ('const',), ('const',)), ('y', 2, ('of2', 'x', 'd'), ('const',))],
 }
@@ -52,7 +68,8 @@ GRAPHS = {
 
 def _mk_callable(names):
     # builds  lambda <names>: tuple of the arguments  (the resolved hyper-parameter handed to the uninterpreted density)
-    src = f"lambda {', '.join(names)}: np.concatenate([np.atleast_1d(v) for v in ({', '.join(names)},)])"
+    # (NOT the identity - 2 v + 1 per argument: with identity callables a value handed over without evaluating the callable would go unnoticed)
+    src = f"lambda {', '.join(names)}: np.concatenate([2 * np.atleast_1d(v) + 1 for v in ({', '.join(names)},)])"
     return eval(src, {'np': np})
 
 
@@ -63,7 +80,7 @@ def build(c, gname):
             if spec[0] == 'const':
                 v = c.real(f'{nm}_{s}'); consts[(nm, s)] = v; return v
             return _mk_callable(list(spec[1:]))
-        facs.append(UFDist(slot(aspec, 'a'), slot(bspec, 'b'), ctx=c, tag='l_' + nm, geometry=dim, name=nm))
+        facs.append((UFDist2 if nm in ('a', 'b') else UFDist)(slot(aspec, 'a'), slot(bspec, 'b'), ctx=c, tag='l_' + nm, geometry=dim, name=nm))
     return facs, consts
 
 
@@ -73,7 +90,7 @@ def joint_logd_spec(c, gname, consts, vals):
         def res(spec, s):
             if spec[0] == 'const': return [consts[(nm, s)]]
             out = []
-            for p in spec[1:]: out += list(np.atleast_1d(vals[p]))
+            for p in spec[1:]: out += list(2 * np.atleast_1d(vals[p]) + 1)
             return out
         tot = tot + c.uf('l_' + nm, *(res(aspec, 'a') + res(bspec, 'b') + list(np.atleast_1d(vals[nm]))))
     return tot
